@@ -6,6 +6,8 @@ import (
 	"sort"
 	"strings"
 	"time"
+
+	"verif/world"
 )
 
 // Profile is the workload of one check: weights over the action alphabet, class distributions,
@@ -261,6 +263,12 @@ func (p *Profile) Make(s *Sim, kind string) *Action {
 		a.Cls = p.class(r, "ev_end")
 	case "visit":
 		a.Opt["route"] = appRoutes[r.Intn(len(appRoutes))]
+		if r.Intn(8) == 0 {
+			a.Opt["route"] = pick(r, world.PathLockNotOK, world.PathConfirmNotOK, "/", s.Cfg.Mount+"/app/page")
+		}
+		if r.Intn(6) == 0 {
+			a.Opt["method"] = pick(r, "POST", "HEAD", "PUT", "DELETE")
+		}
 		if r.Intn(4) == 0 {
 			a.Opt["route"] += "?q=" + pick(r, "1", "a%20b", "x&y=z")
 		}
